@@ -150,9 +150,42 @@ CONTRACTS = [
 ]
 
 
-def injections():
+def needed_groups(files, kani_dir):
+    """Harness groups a set of harness files needs: the groups owning those files plus, transitively, every group whose
+    module name (verif_*) one of their sources mentions.  Only these are injected and only the extractions they
+    `include!` are made, so that a lost anchor in code a property does not depend on cannot leave it undecided."""
+    import os
+    import re
+    by_file = {g["file"]: k for k, g in GROUPS.items()}
+    by_mod = {g["mod"]: k for k, g in GROUPS.items()}
+    need = {by_file[f] for f in files if f in by_file}
+    need.add("spec")
+    work = list(need)
+    while work:
+        k = work.pop()
+        txt = open(os.path.join(kani_dir, GROUPS[k]["file"])).read()
+        for m in set(re.findall(r"\bverif_\w+", txt)):
+            d = by_mod.get(m)
+            if d and d not in need:
+                need.add(d)
+                work.append(d)
+    return need
+
+
+def needed_extraction_outs(groups, kani_dir):
+    import os
+    import re
+    outs = set()
+    for k in groups:
+        outs |= set(re.findall(r'include!\("([\w.]+)"\)', open(os.path.join(kani_dir, GROUPS[k]["file"])).read()))
+    return outs
+
+
+def injections(groups=None):
     out = []
-    for g in GROUPS.values():
+    for k, g in GROUPS.items():
+        if groups is not None and k not in groups:
+            continue
         out.append(dict(file=g["into"], scope=g.get("scope"), mod=g["mod"], path=g["file"], pub=g.get("pub", False)))
     out.extend(CONTRACTS)
     return out
